@@ -9,13 +9,21 @@ LEVEL = "model_checking"
 
 WORKERS = 4          # TLC workers / parallel replay + validation chunks
 RIDE = 8             # state-preserving transitions ridden on one behaviour
-INITS = {
-    ("Und",) * 15: "blank",
-    ("ATru", "ATru", "Und", "Und", "Und", "Und", "Und", "ATru", "ATru", "Und", "Und", "Und", "Und", "Und", "ATru"): "auto",
-    ("Auth", "MDis", "Und", "Und", "Und", "Und", "Und", "MTru", "ATru", "Und", "Und", "Und", "Und", "Und", "ADis"): "mixed",
-}
+ACCTS = ["own", "a", "b"]
+IDS = ["o1", "o2", "a1", "b1", "k"]          # key ids; a key is an (account, id) pair, "k" exists under every account
+_DEV = {"blank": {"o1": "Und", "o2": "Und", "a1": "Und", "b1": "Und"},
+        "auto": {"o1": "ATru", "o2": "ATru", "a1": "ATru", "b1": "ATru"},
+        "mixed": {"o1": "Auth", "o2": "ADis", "a1": "MTru", "b1": "ADis"}}
+_SHARED = {"blank": {"own": "Und", "a": "Und", "b": "Und"},
+           "auto": {"own": "ATru", "a": "ATru", "b": "ATru"},
+           "mixed": {"own": "MDis", "a": "ATru", "b": "Und"}}
+_OWNER = {"o1": "own", "o2": "own", "a1": "a", "b1": "b"}
+# spec/Atm.tla InitLv, in the order of PairSeq (accounts x ids): only used to name a behaviour's initial levels
+INITS = {tuple((_SHARED[n][a] if i == "k" else _DEV[n][i] if _OWNER[i] == a else "Und") for a in ACCTS for i in IDS): n
+         for n in _DEV}
 # step kinds the behaviours of a tour must contain (vacuity guard; counted by AtmTrace on the model's steps)
-MUST_SEE = ["change", "direct", "held", "fired", "cascade2", "discarded", "subsumed", "demoted", "outOfScope", "echo"]
+MUST_SEE = ["change", "direct", "held", "fired", "cascade2", "discarded", "subsumed", "demoted", "outOfScope", "echo",
+            "sameIdMsg", "sameIdHeld", "otherOwnerKept"]
 
 
 def ride_loops(raw):
@@ -72,7 +80,7 @@ def split_chunks(behs, n):
 def run(chk, replay=None):
     quick = chk.tier == "quick"
     # 1. design level: the reference model satisfies the C18 step predicates (StepOK) exhaustively
-    for cfg in (["Atm.cfg", "AtmDeep.cfg"] if quick else ["AtmFull.cfg", "AtmDeep6.cfg"]):
+    for cfg in (["Atm.cfg", "AtmDeep.cfg"] if quick else ["AtmFull.cfg", "AtmDeep5.cfg"]):
         chk.mc(vf.tlc_mc("Atm.tla", cfg, workers=WORKERS), cfg)
     # 2. behaviours: transition tours of bounded models + seeded random walks over the rich universe
     if replay:
@@ -149,10 +157,10 @@ def run(chk, replay=None):
     chk.cov["replay_wall_s"] = max(r["wall_s"] for r, _ in reps)
     chk.cov["trace_validation_wall_s"] = max(s["wall_s"] for s in sums)
     chk.cov["exhaustive"] = tour_mode
-    chk.cov["bounds"] = {"accounts": 3, "key_ids": 5, "policies": 2,
-                         "model_check": "Atm.cfg: 3 senders, <=2 decisions/message, <=2 keys/manual decision, histories <=3; "
+    chk.cov["bounds"] = {"accounts": 3, "key_ids": 5, "keys_owner_id_pairs": 7, "shared_key_id": "k (under all 3 accounts)", "policies": 2,
+                         "model_check": "Atm.cfg: 3 senders, 6 keys, <=2 decisions/message, <=2 keys/manual decision, histories <=2; "
                                         "AtmDeep.cfg: 1 decision, histories <=4" if quick else
-                                        "AtmFull.cfg: 5 senders, <=2 decisions/message, histories <=3; AtmDeep6.cfg: 1 decision, histories <=6"}
+                                        "AtmFull.cfg: 3 senders, 6 keys, <=2 decisions/message, histories <=3; AtmDeep5.cfg: 1 decision, histories <=5"}
     chk.cov["rule"] = ("behaviours = transition tour(s) of bounded Atm models (every transition, reached by a shortest path; "
                        "state-preserving transitions ridden on the behaviour of a state-changing one) + seeded random walks over "
                        "the rich universe; each replayed on the real QXmppAtmManager + QXmppAtmTrustMemoryStorage (ASan/UBSan) and "
@@ -182,10 +190,10 @@ def run(chk, replay=None):
         if missing:
             raise vf.MachineryError("vacuity guard: the replayed behaviours contain no step of kind " + ", ".join(missing))
     chk.assumptions += [
-        "key ids are fingerprints: every key id belongs to exactly one account (trust messages and manual decisions name a key only under its owner)",
+        "a key is an (owner, key id) pair; subject key ids are shared between owners, but the ids of keys that SEND trust messages belong to one account each (the storage interface keeps held decisions under the sender's key id only)",
         "the e2ee layer reports the true sender key: the sender key of a message from account x is a key of x",
         "a trust message lists an owner at most once and a key in at most one direction",
         "'distrusted' in the statement means the manual/ATM decision (ManuallyDistrusted), not the automatic TOAKAFA demotion",
-        "a held decision may also disappear when an identical decision (same key, same direction) is applied (DropSubsumed in spec/Atm.tla, what the code does)",
+        "a held decision may also disappear when an identical decision (same owner, same key id, same direction) is applied (DropSubsumed in spec/Atm.tla)",
         "memory storage: all storage tasks complete synchronously",
     ]
